@@ -2,6 +2,7 @@ package main
 
 import (
 	"bytes"
+	"fmt"
 	"strconv"
 	"strings"
 
@@ -17,6 +18,11 @@ func init() {
 		c02C(c, unhx(in[0]), key4(in[1]), int(off), al)
 	}
 	replayers["C02R"] = func(c *ctx, in []string) { c02R(c, unhx(in[0]), key4(in[1]), in[2], in[3], in[4]) }
+	replayers["C02WS"] = func(c *ctx, in []string) {
+		a, _ := strconv.Atoi(in[2])
+		b, _ := strconv.Atoi(in[3])
+		c02WS(c, unhx(in[0]), key4(in[1]), a, b)
+	}
 	replayers["C02W"] = func(c *ctx, in []string) { c02W(c, unhx(in[0]), key4(in[1]), in[2]) }
 	replayers["C02F"] = func(c *ctx, in []string) { c02F(c, in[0], parseHdr(in[1:7]), unhx(in[7]), key4(in[8])) }
 }
@@ -110,6 +116,51 @@ func c02W(c *ctx, p []byte, key [4]byte, splits string) {
 	c.emit("C02W %s %s %s -> %s %d %d", hx(p), hx(key[:]), splits, hxList(w.calls), b2i(intact), b2i(destIntact))
 }
 
+// shortWriter accepts only part of one call (returning io.ErrShortWrite), as a
+// destination under back-pressure may; the caller resumes with the rest.
+type shortWriter struct {
+	got     []byte
+	call    int
+	shortAt int
+	take    int
+}
+
+func (w *shortWriter) Write(p []byte) (int, error) {
+	w.call++
+	if w.call == w.shortAt && len(p) > w.take {
+		w.got = append(w.got, p[:w.take]...)
+		return w.take, errShort
+	}
+	w.got = append(w.got, p...)
+	return len(p), nil
+}
+
+var errShort = fmt.Errorf("verif: short write")
+
+// C02WS: CipherWriter over a destination that takes a call only partially; the caller resumes
+func c02WS(c *ctx, p []byte, key [4]byte, piece int, shortAt int) {
+	dst := &shortWriter{shortAt: shortAt, take: piece / 2}
+	cw := wsutil.NewCipherWriter(dst, key)
+	rest := append([]byte(nil), p...)
+	guard := 0
+	for len(rest) > 0 && guard < 10*len(p)+10 {
+		guard++
+		k := piece
+		if k > len(rest) {
+			k = len(rest)
+		}
+		n, err := cw.Write(rest[:k])
+		if err != nil && err != errShort {
+			break
+		}
+		if n == 0 && err == nil {
+			break
+		}
+		rest = rest[n:]
+	}
+	c.emit("C02WS %s %s %d %d -> %s", hx(p), hx(key[:]), piece, shortAt, hx(dst.got))
+}
+
 func c02F(c *ctx, name string, h ws.Header, p []byte, key [4]byte) {
 	caller := append([]byte(nil), p...)
 	f := ws.Frame{Header: h, Payload: caller}
@@ -168,7 +219,8 @@ func runC02(c *ctx) {
 		c02C(c, p, key, int(c.rng.Int63n(1<<62)), c.rng.Intn(8))
 		if n <= 5000 {
 			bufs := []string{"1", "3", "4096", "2,7,1", "16,1"}[c.rng.Intn(5)]
-			c02R(c, p, key, c.randChunkSpec(n), []string{"eof", "fail"}[c.rng.Intn(2)], bufs)
+			c02R(c, p, key, c.randChunkSpec(n), []string{"eof", "fail", "eofdata", "faildata"}[c.rng.Intn(4)], bufs)
+			c02WS(c, p, key, 1+c.rng.Intn(9), c.rng.Intn(5))
 			c02W(c, p, key, []string{"1", "3", "7,2", "4096", "16,1,5"}[c.rng.Intn(5)])
 		}
 	}
@@ -179,7 +231,9 @@ func runC02(c *ctx) {
 		for _, spec := range []string{"-", "r1", "r3", "5,1,9"} {
 			for _, bufs := range []string{"1", "4", "4096"} {
 				c02R(c, p, keys[1], spec, "eof", bufs)
+				c02R(c, p, keys[2], spec, "eofdata", bufs)
 			}
+			c02WS(c, p, keys[1], 1+n%7, n%4)
 		}
 		for _, sp := range []string{"1", "2", "5", "9,1"} {
 			c02W(c, p, keys[2], sp)
